@@ -168,8 +168,8 @@ func genC01(r *rng, tier string, emit func(string)) {
 				emit(fmt.Sprintf("sm2verifyder %s %s %s %s", bhex(k.x), bhex(k.y), hx(msg), hx(sig)))
 			}
 			vd(sig)
-			vd(append(append([]byte{}, sig...), 0))          // trailing byte after the SEQUENCE
-			vd(sig[:len(sig)-1])                              // truncated
+			vd(append(append([]byte{}, sig...), 0)) // trailing byte after the SEQUENCE
+			vd(sig[:len(sig)-1])                    // truncated
 			m := append([]byte{}, sig...)
 			m[0] = 0x31
 			vd(m) // wrong outer tag
@@ -287,6 +287,33 @@ func genC02(r *rng, tier string, emit func(string)) {
 				}
 			}
 		}
+		// a nonce whose key stream is all zero for a 1-byte plaintext (1 in 256): GM/T 0003.4 step A5 says draw
+		// another nonce; nothing of the rejected attempt may remain in the ciphertext
+		if i%8 == 0 {
+			nm1 := new(big.Int).Sub(sm2.P256Sm2().Params().N, big.NewInt(1))
+			for tries := 0; tries < 4000; tries++ {
+				rnd2 := r.bytes(120)
+				kk := new(big.Int).SetBytes(rnd2[:40])
+				kk.Mod(kk, nm1).Add(kk, big.NewInt(1))
+				x2, y2 := sm2.P256Sm2().ScalarMult(k.x, k.y, kk.Bytes())
+				in := append(append(append([]byte{}, h32b(x2)...), h32b(y2)...), 0, 0, 0, 1)
+				if sm3.Sm3Sum(in)[0] != 0 {
+					continue
+				}
+				one := []byte{byte(1 + r.intn(255))}
+				emit(fmt.Sprintf("sm2enc %s %s %s %s %s", bhex(k.x), bhex(k.y), mode, hx(one), hx(rnd2)))
+				var ct2 []byte
+				if mode == "asn1" {
+					ct2, err = sm2.EncryptAsn1(pub, one, &fixedRand{append([]byte{}, rnd2...)})
+				} else {
+					ct2, err = sm2.Encrypt(pub, one, &fixedRand{append([]byte{}, rnd2...)}, modeOf(mode))
+				}
+				if err == nil {
+					dec(k.d, ct2)
+				}
+				break
+			}
+		}
 		// invalid-curve ciphertexts that are otherwise consistent (raw and ASN.1 form)
 		if i%3 == 0 {
 			x1, y1 := new(big.Int).SetBytes(r.bytes(31)), new(big.Int).SetBytes(r.bytes(31))
@@ -375,4 +402,9 @@ func genC13(r *rng, tier string, emit func(string)) {
 		}
 		emit(fmt.Sprintf("sm2kexbad %s %d %s %s %s %s %s %s %s %s", role, klen, hx([]byte("A")), hx([]byte("B")), bhex(a.d), bhex(ra.d), bhex(b.x), bhex(b.y), bhex(ex), bhex(ey)))
 	}
+}
+
+func h32b(v *big.Int) []byte {
+	b := v.Bytes()
+	return append(make([]byte, 32-len(b)), b...)
 }
